@@ -62,12 +62,17 @@ def run(R, ctx):
     # stored path is kept current: rotation table (shared with R01.4)
     c01.swap_rules(_Map(R, {'R01.4': 'R18.2'}), ctx)
     # writer assignment in reopen only after Ok of the open it stores
-    p = ctx.ip.prov(b.path)
-    assigns = [bb for bb in sorted(b.normal_blocks()) for s in b.blocks[bb]['stmts'] if s['k'] == 'assign' and s['place']['p'] and s['place']['p'][-1]['k'] == 'deref' and
-               'Box<dyn std::io::Write + std::marker::Send>' in b.local_ty(s['place']['l'])]
-    opens = [x[0] for x in ctx.cg.call_sites_reaching(b, lambda n_, t_: n_ == 'std::fs::OpenOptions::open')]      # direct, or through a private helper
-    ok = bool(assigns) and all(any(C.dominates(b, e[0], a) for o in opens for e in ok_block_of_call(b, o)) for a in assigns)
-    R.check('R18.2', f"{b.path}|assign-after-open", ok, f"{len(assigns)} writer assignments, each dominated by the Ok edge of an open", "reopen replaces the writer without a successful open", where=b.loc())
+    # (the assignment may sit in the reopen function itself or in a private helper that only it calls)
+    scope = [b] + [f.bodies[x] for x in ctx.cg.reachable([b.path], spawn=False) if x in f.bodies and x != b.path and f.bodies[x].kind != 'Closure'
+                   and only_called_from(ctx.cg, root_fn(x), {b.path})]
+    total, ok = 0, True
+    for x in scope:
+        assigns = [bb for bb in sorted(x.normal_blocks()) for s in x.blocks[bb]['stmts'] if s['k'] == 'assign' and s['place']['p'] and s['place']['p'][-1]['k'] == 'deref' and
+                   'Box<dyn std::io::Write + std::marker::Send>' in x.local_ty(s['place']['l'])]
+        opens = [y[0] for y in ctx.cg.call_sites_reaching(x, lambda n_, t_: n_ == 'std::fs::OpenOptions::open')]      # direct, or through a private helper
+        total += len(assigns)
+        ok = ok and all(any(C.dominates(x, e[0], a) for o in opens for e in ok_block_of_call(x, o)) for a in assigns)
+    R.check('R18.2', f"{b.path}|assign-after-open", total > 0 and ok, f"{total} writer assignments, each dominated by the Ok edge of an open", "reopen replaces the writer without a successful open", where=b.loc())
 
     rb = ctx.body(r'^writers::file_log_writer::state_handle::StateHandle::reset$')
     aw = [bb for bb, t in rb.calls() if callee_name(t).endswith('assert_write_mode')]
